@@ -80,7 +80,7 @@ def spec_unwrap(q, a):
             if i is not None:
                 active[i] = False
         if op == "unwrap":
-            i = next((j for j in range(len(leaves)) if active[j] and leaves[j] == "g"), None)
+            i = next((j for j in range(len(leaves)) if active[j] and leaves[j] in "ge"), None)
             if i is not None:
                 active[i] = False
                 if stages[n + 1].split(",")[i] != "-":
